@@ -91,4 +91,11 @@ CONFIG = {
         "quick": {"parts": [part("TestC16SQL", 6, 12000), part("TestC16Payload", 10, 40)]},
         "thorough": {"parts": [part("TestC16SQL", 12, 250000, timeout=3000), part("TestC16Payload", 16, 600, timeout=3000), part("FuzzC16SQL", 1, 0, fuzz="300s", timeout=900)]},
     },
+    "C19": {
+        "level": "exploration",
+        "rule": "(lattice, enumerated completely in both tiers) every combination of credential {none, wrong / prefix / suffix / case-variant / password+junk, right password; no header, wrong token, right token, forged cookie, cookie signed with foreign keys, well-signed expired cookie, well-signed unexpired cookie} x endpoint {rpc query, rpc follow, rpc remote-query registration; web /immediate /async /run /cached/<permalink>} x configuration {password set/unset} x {OAuth set/unset} x GitHub stub {unreachable, user in org, user not in org} against real loopback gRPC servers (rpcserver.PrepareServer) and real web handlers (web.Configure on httptest servers, cookie keys supplied by the harness, http.DefaultTransport replaced by a GitHub stub); (near-misses, generated) random prefix/suffix/bit-flip/case/space/deletion mutations of the password, the static token and a valid cookie, cookies with random past expiry or a one-character-different hash key. Oracle (one-directional, as the statement): a request whose credential is not the right password / static token / well-signed unexpired cookie must be refused - no row data and status not in {200, 202}; for registration: a following leader query never reaches the rogue handler. Properly authorised requests must be served only as a fixture sanity check (otherwise inconclusive). Non-trivial: the request is one that must be refused.",
+        "assumptions": ["an expired but well-signed cookie for which GitHub still vouches (stub 'in org') may be served or not (unspecified)", "configurations without password (rpc) or without OAuth (web) are out of the property's scope and only exercised"],
+        "quick": {"parts": [part("TestC19Lattice", 1, 1), part("TestC19Near", 4, 150)]},
+        "thorough": {"parts": [part("TestC19Lattice", 1, 1), part("TestC19Near", 16, 1500, timeout=3000)]},
+    },
 }
